@@ -47,6 +47,17 @@ IcWeightPerPath(G, words, C, pos, c) ==
                 Wt(words, C, t) * SumOver(WordSynsets(G, words, t, pos), h) IN
     Smooth(words, C) + SumOver(Known(words, C), g)
 
+(* ---- load(): a WordNet::Similarity weights file ------------------------- *)
+\* rows: sequence of <<synset, weight, isRoot>>; a part of speech gets as total the
+\* sum of the weights of its rows marked ROOT, a listed synset the weight of its
+\* last row, every other synset 0
+RowsOfPos(G, rows, pos) == {k \in DOMAIN rows : FoldPos(G.pos[rows[k][1]]) = pos}
+LoadTotal(G, rows, pos) ==
+  LET w(k) == rows[k][2] IN SumOver({k \in RowsOfPos(G, rows, pos) : rows[k][3]}, w)
+LoadWeight(G, rows, pos, x) ==
+  LET ks == {k \in RowsOfPos(G, rows, pos) : rows[k][1] = x} IN
+    IF ks = {} THEN 0 ELSE rows[CHOOSE k \in ks : \A j \in ks : k >= j][2]
+
 (* ---- IC-based similarity arguments ---------------------------------- *)
 \* W: sequence of positive weights per synset, N: total
 MinW(W, S) == SeqMin({W[c] : c \in S})
